@@ -1799,6 +1799,12 @@ int ov_pcm_seek(OggVorbis_File *vf,ogg_int64_t pos){
       ogg_int64_t target=(pos-vf->pcm_offset)>>hs;
       long samples=vorbis_synthesis_pcmout(&vf->vd,NULL);
 
+      /* half rate: positions within a link advance in steps of two from
+         the link's start, which is odd when the preceding links hold an
+         odd number of samples; less than one output sample is then left
+         to discard and we are as close as we can get */
+      if(target<=0)break;
+
       if(samples>target)samples=target;
       vorbis_synthesis_read(&vf->vd,samples);
       vf->pcm_offset+=samples<<hs;
